@@ -250,6 +250,10 @@ def main(run: core.Run) -> None:
     items += docexp.class_cases(1, level=('basic' if tier == 'quick' else 'full'))
     run.bounds['class_corpus'] = 'one minimal and one full document per directive class (38 documents), depth 1'
     docexp.bfs(run, ORACLE, items, 'depth-1 corpus')
+    minimal = ['2000-01-01 *\n', '2000-01-01 open Assets:Foo\n', '2000-01-01 note Assets:Foo "n"\n', '2000-01-01 custom "x"\n']
+    if tier != 'quick':
+        minimal += [t + '\n' for t in docs.L_CLASSES[::2] if '\n' not in t]
+    d2 += [{'text': t, 'mode': True, 'depth': 2, 'level': 'basic'} for t in dict.fromkeys(minimal)]
     docexp.bfs(run, ORACLE, d2, 'depth-2 corpus')
     # histories of three steps confined to one repeated field and its aliasing views
     fc = docexp.focus_cases(3, 'basic', docexp.FOCUS_SUBJECTS[:1] if tier == 'quick' else None)
